@@ -627,6 +627,10 @@ class VectorContainer:
                     start = start.start
 
             if len(stop):
+                # Only period labels (in backticks) denote closed intervals;
+                # regular integer indexes keep their usual Python meaning
+                stop_is_label = '`' in stop
+
                 stop = resolve_index_in_span(stop)
 
                 # Handle slices (typically from a `pandas` `PeriodIndex` or
@@ -634,10 +638,10 @@ class VectorContainer:
                 if isinstance(stop, slice):
                     stop = stop.stop
 
-            # Adjust for closed intervals on the right-hand side (mirroring
-            # `pandas`)
-            if isinstance(stop, int):
-                stop += 1
+                # Adjust for closed intervals on the right-hand side
+                # (mirroring `pandas`)
+                elif stop_is_label and isinstance(stop, int):
+                    stop += 1
 
             # Resolve third (`step`) argument
             if len(step) == 0:
